@@ -70,6 +70,29 @@ def obtain(payload, source):
 _REUSE = {}
 
 
+def _prelude(kind):
+    """Other messages are constructed (or fail to be) after the message under test exists."""
+    from pyrtcm import RTCMMessage, RTCMReader  # pylint: disable=import-outside-toplevel
+
+    if not kind:
+        return
+    steps = {"fail-none": [None], "fail-trunc": [b"\x3e\xd0\x00"], "fail-short": [b"\x3e"],
+             "ok": [b"\xfa\x00\x01\x02"], "fail-then-ok": [b"\x3e\xd0\x00", b"\xfa\x00\x01\x02"],
+             "reader-fail": "reader"}[kind]
+    if steps == "reader":
+        import io  # pylint: disable=import-outside-toplevel
+        from mc import pinned  # pylint: disable=import-outside-toplevel
+
+        rd = RTCMReader(io.BytesIO(pinned.frame(b"\x3e\xd0\x00")), quitonerror=0)
+        rd.read()
+        return
+    for p in steps:
+        try:
+            RTCMMessage(payload=p) if p is not None else RTCMMessage()
+        except Exception:  # pylint: disable=broad-except
+            pass
+
+
 def judge(case, reuse=False):
     """
     One case = a fresh message and a sequence of assignment attempts.  With reuse=True (the
@@ -92,6 +115,7 @@ def judge(case, reuse=False):
             out.nontrivial = False
             return out
         before = snapshot(msg)
+    _prelude(case.get("prelude"))
     for name, kind in case["attempts"]:
         val = value_for(kind, msg, name)
         if kind == "iadd":
@@ -124,7 +148,7 @@ def judge(case, reuse=False):
         if after != before:
             out.bad("message-changed", f"{case['name']}: snapshot changed after attempt on {name!r}")
             break
-    out.obs = core.h64(repr((case["name"], case.get("source"), case["attempts"])))
+    out.obs = core.h64(repr((case["name"], case.get("source"), case.get("prelude"), case["attempts"])))
     if reuse and not out.violations:
         _REUSE.update(key=key, msg=msg, before=before)
     else:
@@ -163,6 +187,12 @@ def _work(item):
                 case = {"name": it["name"], "payload": it["payload"], "source": source,
                         "attempts": [[name, kind]]}
                 st.add(case, judge(case, reuse=True))
+    # attempts made after OTHER constructions (failing / succeeding) took place in between
+    for prelude in ("fail-none", "fail-trunc", "fail-short", "ok", "fail-then-ok", "reader-fail"):
+        for name in ["payload", "_payload", "ZZ_new_public"] + pubs[:1]:
+            case = {"name": it["name"], "payload": it["payload"], "prelude": prelude,
+                    "attempts": [[name, "zero"]]}
+            st.add(case, judge(case))
     if pairs:
         priv = [n for n in names if n.startswith("_")]
         pub = [n for n in names if not n.startswith("_")][:4] + FRESH[:2]
